@@ -151,3 +151,139 @@ class SchedCtl:
             pl = f"{payload[:8]}{payload[8:10]}{num:02X}{ack_tot:02X}"
             return f" I --- {self.ctl} {gwy_id} --:------ 0404 007 {pl}"
         return None
+
+
+# ---------------------------------------------------------------------------------------------------------
+# configuration (C12)
+
+ZONE_CLASS = {"08": "radiator_valve", "09": "underfloor_heating", "0A": "zone_valve", "0B": "mixing_valve", "11": "electric_heat"}
+
+
+def hex_id(dev_id: str) -> str:
+    t, n = dev_id.split(":")
+    return f"{(int(t) << 18) | int(n):06X}"
+
+
+def zone_mask(idxs) -> str:
+    m = 0
+    for i in idxs:
+        m |= 1 << int(i, 16)
+    return f"{m & 0xFF:02X}{m >> 8:02X}"
+
+
+class CfgCtl:
+    """The configuration side of a controller.
+
+    cfg = {"zones": {idx: {"class": "08"|"0A"|"0B"|"11", "sensor": dev_id | "CTL" | None, "acts": [dev_id...]}},
+           "dhw": None | {"sensor": id|None, "dhw_valve": id|None, "htg_valve": id|None},
+           "app": None | dev_id, "short_000c": bool}
+    Answers as an evohome does (formats taken from the RPs in the repo's logs): RQ|0005 -> the mask of zones of a class
+    (type 04/00: all zones); RQ|000C -> the devices of a role in a zone/domain, 7F-FFFFFF when there is none - also when the
+    zone's sensor is the controller itself.
+    """
+
+    def __init__(self, cfg: dict, ctl: str = CTL) -> None:
+        self.cfg = cfg
+        self.ctl = ctl
+        self.asked: list[tuple] = []  # (code, payload) of every request answered
+        self.extra = True  # also answer the non-topology polls minimally (keeps the send queue short)
+
+    def rp(self, gwy: str, code: str, pl: str) -> str:
+        return f"RP --- {self.ctl} {gwy} --:------ {code} {len(pl) // 2:03d} {pl}"
+
+    def devices(self, idx: str, role: str) -> list[str] | None:
+        """Devices the controller lists for (idx, role); None = it does not answer."""
+        cfg = self.cfg
+        if role == "0F":
+            return [cfg["app"]] if cfg.get("app") else []
+        if role == "0D":
+            d = cfg.get("dhw")
+            return [d["sensor"]] if d and d.get("sensor") else []
+        if role == "0E":
+            d = cfg.get("dhw")
+            k = "dhw_valve" if idx == "00" else "htg_valve"
+            return [d[k]] if d and d.get(k) else []
+        z = cfg["zones"].get(idx)
+        if z is None:
+            return []
+        if role == "04":
+            return [z["sensor"]] if z.get("sensor") and z["sensor"] != "CTL" else []
+        if role in ("00", z["class"]):
+            return list(z.get("acts", ()))
+        return []
+
+    def answer(self, frame: str, gwy: str) -> str | None:
+        f = frame.split()
+        verb, dst, code, payload = f[0], f[3], f[5], f[7]
+        if verb == "RQ" and dst[:3] == "13:" and self.extra:  # a relay answers its own polls
+            pl = {"0008": "0000", "3EF1": "00012C012CC8FF", "1100": "00180400007FFF01", "3EF0": "0000FF"}.get(code)
+            return f"RP --- {dst} {gwy} --:------ {code} {len(pl) // 2:03d} {pl}" if pl else None
+        if verb != "RQ" or dst != self.ctl:
+            return None
+        if code == "0005":
+            t = payload[2:4]
+            self.asked.append((code, payload))
+            zones = self.cfg["zones"]
+            if t in ZONE_CLASS:
+                idxs = [i for i, z in zones.items() if z["class"] == t]
+            elif t in ("00", "04"):
+                idxs = list(zones)
+            elif t == "0D":
+                idxs = ["00"] if self.cfg.get("dhw") and self.cfg["dhw"].get("sensor") else []
+            elif t == "0E":
+                d = self.cfg.get("dhw") or {}
+                idxs = [i for i, k in (("00", "dhw_valve"), ("01", "htg_valve")) if d.get(k)]
+            elif t == "0F":
+                idxs = ["00"] if self.cfg.get("app") else []
+            else:
+                idxs = []
+            return self.rp(gwy, code, f"00{t}{zone_mask(idxs)}")
+        if code == "000C":
+            i, t = payload[:2], payload[2:4]
+            self.asked.append((code, payload))
+            devs = self.devices(i, t)
+            if devs is None:
+                return None
+            if not devs:
+                return self.rp(gwy, code, f"{i}{t}7FFFFFFF")
+            if self.cfg.get("short_000c") and len(devs) > 1:
+                return self.rp(gwy, code, f"{i}" + "".join(f"{t}00{hex_id(d)}" for d in devs))
+            return self.rp(gwy, code, "".join(f"{i}{t}00{hex_id(d)}" for d in devs))
+        if not self.extra:
+            return None
+        z = payload[:2]
+        known = z in self.cfg["zones"]
+        if code == "0004" and known:
+            return self.rp(gwy, code, f"{z}00" + "Zone".encode().hex().upper() + f"{int(z, 16):02d}".encode().hex().upper() + "00" * 14)
+        if code == "000A" and known:
+            return self.rp(gwy, code, f"{z}1001F40DAC")
+        if code == "2349" and known:
+            return self.rp(gwy, code, f"{z}07D000FFFFFF")
+        if code == "30C9" and known:
+            return self.rp(gwy, code, f"{z}07D0")
+        if code == "12B0" and known:
+            return self.rp(gwy, code, f"{z}0000")
+        if code == "0006":
+            return self.rp(gwy, code, "00050008")
+        if code == "1F09":
+            return self.rp(gwy, code, "000708")
+        if code == "2E04":
+            return self.rp(gwy, code, "00FFFFFFFFFFFF00")
+        if code == "313F":
+            return self.rp(gwy, code, "00FC380BAA130207E6")
+        if code == "1100":
+            return self.rp(gwy, code, "FC180400007FFF01")
+        if code == "0418":
+            return self.rp(gwy, code, "000000B0000000000000000000007FFFFF7000000000")
+        if code == "0100":
+            return self.rp(gwy, code, "00656EFFFF")
+        if code == "10E0":
+            return self.rp(gwy, code, "000002FF0163FFFFFFFFD90207E0010D07DE4576" + "6F20436F6C6F72".ljust(36, "0"))
+        d = self.cfg.get("dhw")
+        if d and code == "10A0":
+            return self.rp(gwy, code, "0013880003E8")
+        if d and code == "1260":
+            return self.rp(gwy, code, "001388")
+        if d and code == "1F41":
+            return self.rp(gwy, code, "000100FFFFFF")
+        return None
